@@ -22,6 +22,7 @@ RULE = (
     "(.bench suffix and fmt='bench'). Non-trivial: >= 3 gates of >= 2 types and (a DFF, or a constant, or "
     "an output declared before its definition). Distinct by digest."
 )
+RULE += ' Added after seeded-change rounds 4-5: line breaks inside operand lists; net names containing gate keywords (q_buff, notx, andy).'
 ASSUMPTIONS = [
     "AST evaluator in this module and reference simulator cgv.refsim",
     "net names match [A-Za-z][A-Za-z0-9_]* (the dialect's identifier), keywords all-upper or all-lower",
